@@ -163,6 +163,42 @@ let run_e2e (v : variant) (toks : string list) : string =
   | [] -> "empty"
   | l -> String.concat " " l
 
+(* ---- ownership across a restart (harness/C17/zz_verif_c17_{pppoe,ipoe}_restore_test.go): the component under
+   test is real, the other protocol's side is simulated by the harness as the model describes it.
+   N<t> = the component under test creates a session on tuple t, X<t> = the other side gets a packet, B = restart ---- *)
+let run_restore ?(halfopen_unclaimed = false) (real_is_pppoe : bool) (v : variant) (toks : string list) : string =
+  (* tuples whose ipoe session was checkpointed half-established (H op) and not restarted since *)
+  let half = ref [] in
+  let show1 w t =
+    let k = key_of_tok e2e_tuples.(t) in
+    let ((ni, np), own) = e2e_snapshot w k in
+    let o = match own with
+      | None -> "-"
+      | Some p -> if p = proto_ipoe then "i" else if p = proto_pppoe then "p" else "?" in
+    Printf.sprintf "t%d:i%dp%d:%s" t (int_of_nat ni) (int_of_nat np) o in
+  let show w t = String.concat "," (show1 w t :: List.filter_map (fun u -> if u = t then None else Some (show1 w u)) [0; 1; 2; 3]) in
+  let rec go w toks acc =
+    match toks with
+    | [] -> List.rev acc
+    | op :: rest ->
+      let t = if String.length op > 1 then Char.code op.[1] - 48 else 0 in
+      let k = key_of_tok e2e_tuples.(t) in
+      let fresh_ipoe = (fst (fst (e2e_snapshot w k)) = O) in
+      let w' = match op.[0] with
+        | 'N' -> if fresh_ipoe then half := List.filter (fun x -> x <> k) !half;
+          e2e_step v w (if real_is_pppoe then EPadr k else EDiscover k)
+        | 'H' -> if fresh_ipoe then half := k :: !half; e2e_step v w (EDiscover k)
+        | 'X' -> e2e_step v w (if real_is_pppoe then EDiscover k else EPadr k)
+        | 'B' ->
+          let skip = if halfopen_unclaimed then !half else [] in
+          half := [];
+          e2e_restart_skipping skip w
+        | _ -> failwith ("bad restore op " ^ op) in
+      go w' rest (show w' t :: acc) in
+  match go world0 toks [] with
+  | [] -> "empty"
+  | l -> String.concat " " l
+
 (* ---- concurrent histories ---- *)
 let parse_conc (toks : string list) : op list array =
   (* toks: flags T {n ops} fin n ops *)
@@ -314,6 +350,8 @@ let () =
             else if String.length v >= 6 && String.sub v 0 6 = "NONLIN" then "rejected"
             else "malformed"
           | "e2e" :: rest -> run_e2e variant rest
+          | "rpppoe" :: rest -> run_restore true variant rest
+          | "ripoe" :: rest -> run_restore ~halfopen_unclaimed:(vname = "halfopen_unclaimed") false variant rest
           | "ipoe" :: rest -> run_callers proto_ipoe rest (if idx < Array.length impl then tokens impl.(idx) else [])
           | "pppoe" :: rest -> run_callers ~any:variant.v_evict_pp proto_pppoe rest (if idx < Array.length impl then tokens impl.(idx) else [])
           | "seq" :: rest -> run_seq rest (if idx < Array.length impl then tokens impl.(idx) else [])
